@@ -55,8 +55,14 @@ def run_shape(ctx, tr: toolrun.Trace, shape: dict, via: str, origin: str):
             if out is None or out != ref:
                 tr.ev("Created", name="L", e=dict(project.project_env(ref, tr.terms), dg=-3))  # CLI differs from library
                 return
-    except Exception as e:  # the tool refused an accepted-language description: machinery must know
-        raise core.MachineryError(f"create failed for generated shape {json.dumps(shape)[:300]}: {e!r}")
+    except Exception as e:
+        # The tool refused a description of the accepted language.  C01 speaks of envelopes that ARE written, so this is not
+        # a verdict; the scenario is skipped and counted, and the run fails as machinery only if refusals are systemic.
+        ctx.count("refused_by_create")
+        ctx.observe(f"create refused a generated description: {type(e).__name__}: {str(e)[:100]}")
+        tr.events.pop()
+        tr.tid -= 1
+        return None
     for path, data in toolrun.levels(out):
         tr.ev("Created", name=path, e=project.project_env(data, tr.terms))
     # count what was exercised
@@ -124,6 +130,8 @@ def run(ctx: core.Check):
             toolrun.report(ctx, tr, label="create-random")
             tr = toolrun.Trace()
     toolrun.report(ctx, tr, label="create-random")
+    if ctx.cov.get("refused_by_create", 0) > 0.2 * max(1, ctx.cov["evaluations"]):
+        raise core.MachineryError(f"create refused {ctx.cov['refused_by_create']} generated descriptions - the generator or the tree under test is broken")
     ctx.observe("suit-install-legacy (17) is refreshed by the tool but not named by C01: observed, not judged")
     ctx.assumptions += ["hashlib digests (SHAKE128 -> 16 bytes, SHAKE256 -> 32 bytes as the property's anchor fixes)",
                         "interning by sha256 is injective", "the verifier's CBOR reader locates keys 2, 3 and 15/16/18/20/23"]
